@@ -461,6 +461,8 @@ func c14(r *vc.Run) int {
 		}
 		os.RemoveAll(dir)
 	})
+	// pipeline level: stages connected as in production, pause landing in the middle of hand-overs
+	c14Pipe(r, m, r.Scratch, r.Seed, r.N(7, 56), shapes)
 	for s, n := range m.Races {
 		if s == "harness-only" {
 			r.Note("race report x%d with harness frames only", n)
@@ -471,7 +473,7 @@ func c14(r *vc.Run) int {
 	cov := map[string]any{
 		"evaluations":          m.Evaluations,
 		"distinct_nontrivial":  shapes.Len(),
-		"rule":                 fmt.Sprintf("every sequence up to length %d over {Pause, Resume, Feed, Stop-preprocessor, Stop-postprocessor, Stop-finisher} (stops at most once each, invocations issued one by one at quiescence, each in its own goroutine) + seeded random fully concurrent scripts with hook-point perturbation, one child process each, on the real preprocessor/postprocessor/finisher stages; distinct = distinct scripts in which at least one real worker acknowledged a pause", r.N(4, 5)),
+		"rule":                 fmt.Sprintf("every sequence up to length %d over {Pause, Resume, Feed, Stop-preprocessor, Stop-postprocessor, Stop-finisher} (stops at most once each, invocations issued one by one at quiescence, each in its own goroutine) + seeded random fully concurrent scripts with hook-point perturbation, one child process each, on the real preprocessor/postprocessor/finisher stages; distinct = distinct scripts in which at least one real worker acknowledged a pause; plus full-pipeline runs (stage channels of capacity --workers) in which a pause is fired by a trigger on a pipeline event (hub page with more outlinks than the channel buffers entering the postprocessor, k-th fetch, hand-over), Resume() is called after m acknowledgements, 1-2 cycles: every call must return and the run must drain", r.N(4, 5)),
 		"samples":              []any{map[string]any{"enumerated_sequences": len(seqs), "first": seqs[:min(8, len(seqs))]}, map[string]any{"random_script_example": jobs[len(seqs)].sc.Seq}},
 		"events":               m.Events,
 		"enumerated_sequences": len(seqs),
@@ -479,7 +481,7 @@ func c14(r *vc.Run) int {
 		"exhaustive":           false,
 	}
 	return r.Finish("exploration", cov, []string{
-		"stage level: archiver stage and watchers are exercised by the pipeline-level runs (C03), not here",
+		"the enumerated and random scripts run at stage level; the archiver stage and back-pressure between stages are exercised by the pipeline-level runs (here and in C03's paused moments)",
 		"'blocked forever' = outstanding call while no hook event and no return happened over three samples 300 ms apart; the goroutine dump is the witness",
 		"the order of invocations is enumerated, the interleaving inside the stages is sampled",
 	}, 50)
